@@ -7,6 +7,10 @@ Tr == ndJsonDeserialize("trace.ndjson")
 VARIABLES l, bad, cnt
 ClauseIds == {"C17_p", "C17_r", "C17_x", "C17_g", "C17_np"}
 
+\* violations are collected up to a cap, but the first violation of every clause is always kept: a flood of violations of one
+\* clause (another property's) must not hide the only violation of another
+KeepBad(b, v) == Len(b) < 300 \/ \E c \in v : \A i \in DOMAIN b : c \notin b[i].ids
+
 TInit == l = 1 /\ bad = <<>> /\ cnt = [c \in ClauseIds |-> 0] /\ done = FALSE
 
 Checks(ev) ==
@@ -23,7 +27,7 @@ Step ==
   /\ LET ev == Tr[l] IN
      \E cs \in {Checks(ev) \cup {[id |-> "C17_np", ok |-> ~ev.panic]}} :
        LET v == {c.id : c \in {x \in cs : ~x.ok}} IN
-       /\ bad' = IF v # {} /\ Len(bad) < 300 THEN Append(bad, [l |-> l, sid |-> ev.kind, i |-> ev.id, ids |-> v, tags |-> {}]) ELSE bad
+       /\ bad' = IF v # {} /\ KeepBad(bad, v) THEN Append(bad, [l |-> l, sid |-> ev.kind, i |-> ev.id, ids |-> v, tags |-> {}]) ELSE bad
        /\ cnt' = [c \in ClauseIds |-> cnt[c] + (IF c \in {x.id : x \in cs} THEN 1 ELSE 0)]
   /\ l' = l + 1
   /\ UNCHANGED done
